@@ -33,7 +33,9 @@
 #include "data/chunk_list.h"
 #include "data/hash_chunk.h"
 #include "data/hash_queue.h"
+#include "data/hash_check_queue.h"
 #include "data/hash_torrent.h"
+#include "data/thread_disk.h"
 #include "download/download_main.h"
 #include "download/download_wrapper.h"
 #include "thread_main.h"
@@ -51,6 +53,34 @@ namespace fs = std::filesystem;
 namespace {
 
 struct FileDesc { uint64_t len; bool pad; };
+
+// The disk thread hands every finished chunk to HashCheckQueue::m_slot_chunk_done (normally HashQueue::chunk_done).  The
+// harness puts itself in between: results go to an inbox until the op list says which one arrives (race-free, whatever the
+// main loop does meanwhile); while g_free_run is set they take the real path at once (ops s x z w: the real race).
+std::mutex g_inbox_lock;
+std::vector<std::pair<torrent::HashChunk*, torrent::HashString>> g_inbox;
+std::atomic<bool> g_free_run{false};
+std::function<void(torrent::HashChunk*, const torrent::HashString&)> g_orig_chunk_done;
+
+void install_interposer() {
+  auto* q = torrent::ThreadDisk::thread_disk()->hash_check_queue();
+  for (int i = 0; i < 2000 && !q->m_slot_chunk_done; i++) std::this_thread::sleep_for(std::chrono::milliseconds(1));
+  g_orig_chunk_done = q->m_slot_chunk_done;
+  q->m_slot_chunk_done = [](torrent::HashChunk* hc, const torrent::HashString& hv) {
+    {
+      std::scoped_lock l(g_inbox_lock);      // the flag is read and flipped under the inbox lock: no result is stranded
+      if (!g_free_run.load()) { g_inbox.emplace_back(hc, hv); return; }
+    }
+    g_orig_chunk_done(hc, hv);
+  };
+}
+
+void set_free_run(bool v) {
+  std::scoped_lock l(g_inbox_lock);
+  g_free_run = v;
+}
+
+uint64_t g_saved_limit = 0;   // MemoryManager::m_max_memory_usage before a case lowered it
 
 uint32_t fnv(const std::string& s) {
   uint32_t h = 2166136261u;
@@ -108,6 +138,11 @@ struct Case {
     while (true) {
       auto qs = queued();
       {
+        std::scoped_lock l(g_inbox_lock);
+        for (auto& e : g_inbox) stash[e.first->handle().index()] = e;
+        g_inbox.clear();
+      }
+      {
         std::scoped_lock l(hq()->m_done_chunks_lock);
         for (auto it = hq()->m_done_chunks.begin(); it != hq()->m_done_chunks.end();) {
           stash[it->first->handle().index()] = std::make_pair(it->first, it->second);
@@ -158,6 +193,7 @@ struct Case {
     // ChunkManager accounting: one block of chunk_size bytes per mapped node (only one torrent exists at a time)
     o << " mb" << torrent::runtime::memory_manager()->memory_block_count()
       << " mu" << torrent::runtime::memory_manager()->memory_usage();
+    o << " t" << ht()->delay_retry().is_scheduled();
     return o.str();
   }
 
@@ -206,6 +242,7 @@ std::string run_case(Session& S, const std::string& line, uint32_t serial) {
     }
   }
   if (sec.size() != 3) return "BADCASE";
+  set_free_run(false);
   auto lay = split_ws(sec[0]), pert = split_ws(sec[1]), ops = split_ws(sec[2]);
   if (lay.size() < 3) return "BADCASE";
   Case C(S);
@@ -400,6 +437,8 @@ std::string run_case(Session& S, const std::string& line, uint32_t serial) {
         }
         break;
       case 'w': {
+        set_free_run(true);
+        C.collect(false);
         C.put_back_all();
         C.hq()->work();   // what the callback posted by HashQueue::chunk_done does
         torrent::Download d = C.dl;
@@ -407,14 +446,23 @@ std::string run_case(Session& S, const std::string& line, uint32_t serial) {
         // nothing outstanding in the main thread's queue and no timer pending
         if (!S.settle([d, c2]() mutable { return c2->queued().empty() && !c2->ht()->delay_checked().is_scheduled(); }, 30000))
           throw std::runtime_error("free-running check did not finish");
+        set_free_run(false);
         break;
       }
       case 'K': C.collect(true); S.step(); break;
+      case 'A': C.collect(true); S.advance_us(200000); break;       // the clock passes every pending timer (retry timer: 100 ms)
+      case 'L': {                                                   // memory pressure: the manager grants k blocks in total / back to normal
+        auto* mm = torrent::runtime::memory_manager();
+        if (g_saved_limit == 0) g_saved_limit = mm->m_max_memory_usage.load();
+        if (t.size() > 1 && t[1] == '-') mm->m_max_memory_usage = g_saved_limit;
+        else mm->m_max_memory_usage = (uint64_t)std::stoull(t.substr(1)) * spec.piece_length;
+        break;
+      }
       case 'S': C.collect(true); C.put_back_all(); C.dl.hash_stop(); break;
-      case 's': C.put_back_all(); C.dl.hash_stop(); break;
+      case 's': set_free_run(true); C.collect(false); C.put_back_all(); C.dl.hash_stop(); set_free_run(false); break;
       case 'X': C.collect(true); C.put_back_all(); C.dl.close(0); break;
-      case 'x': C.put_back_all(); C.dl.close(0); break;
-      case 'z': C.put_back_all(); C.dl.close(0); torrent::download_remove(C.dl); removed = true; break;   // close + remove at once, racing the disk thread
+      case 'x': set_free_run(true); C.collect(false); C.put_back_all(); C.dl.close(0); set_free_run(false); break;
+      case 'z': set_free_run(true); C.collect(false); C.put_back_all(); C.dl.close(0); torrent::download_remove(C.dl); set_free_run(false); removed = true; break;   // close + remove at once, racing the disk thread
       default: return "BADCASE op";
     }
     if (!out.empty()) out += ";";
@@ -423,6 +471,7 @@ std::string run_case(Session& S, const std::string& line, uint32_t serial) {
   out += " # " + C.disk_tokens(false) + " ierr=0";
 
   // ---- teardown and the oracle's extras
+  if (g_saved_limit != 0) torrent::runtime::memory_manager()->m_max_memory_usage = g_saved_limit;
   std::string leak;
   if (!removed) {
     C.collect(true);
@@ -502,8 +551,11 @@ static std::string run_giant(Session& S, const std::string& line, uint32_t seria
   }
   d.file_list()->set_root_dir(root);
   d.open(0);
+  set_free_run(true);      // no delivery control here: the real path
   d.hash_check(false);
-  if (!S.settle([d]() { return d.is_hash_checked() || !d.info()->is_open(); }, 25000)) return "HANG giant check did not finish";
+  bool fin = S.settle([d]() { return d.is_hash_checked() || !d.info()->is_open(); }, 25000);
+  set_free_run(false);
+  if (!fin) return "HANG giant check did not finish";
   std::string set;
   const torrent::Bitfield* bf = d.file_list()->bitfield();
   if (!bf->empty())
@@ -532,7 +584,7 @@ static int worker_main() {
   uint32_t serial = 0;
   while (std::getline(std::cin, line)) {
     try {
-      if (!S) S = std::make_unique<Session>();
+      if (!S) { S = std::make_unique<Session>(); install_interposer(); }
       if (line.rfind("G ", 0) == 0) std::cout << run_giant(*S, line, serial++) << "\n";
       else std::cout << run_case(*S, line, serial++) << "\n";
     } catch (torrent::internal_error& e) {
